@@ -13,7 +13,7 @@ from .common import Check, coq_list
 TRUSTED = [
     'Coq 8.16.1 kernel and vm_compute (two finite calendar sweeps over 1900-2199 are evaluated by vm_compute; the bound '
     'is stated in the theorems); axioms: none',
-    'translator translate/py2v.py target dates: utils.expand_time_windows and TimeWindow.__post_init__ are regenerated into '
+    'translator translate/py2v.py target dates: utils.find_days_to_exclude (over the pieces of each entry's text), utils.expand_time_windows and TimeWindow.__post_init__ are regenerated into '
     'gen/Gen_Dates.v on every run (days as integer day numbers; pd.date_range(a, b, freq="D") read as the integer range a..b, '
     'list(set(l)) as duplicate removal, isinstance(x, pd.Timestamp) as true) and proved equal to the model (proofs/DatesBridge.v)',
     'modelled, not verified: pandas.Timestamp parsing of the documented YYYY/MM/DD form, the string splitting in '
@@ -55,9 +55,12 @@ def gen_entries(rng, malformed):
   rng.shuffle(ents)
   if malformed:
     kind = rng.choice(['garbage', 'month13', 'feb30', 'three_parts', 'empty', 'reversed', 'reversed', 'day0', 'noleap'])
-    bad = {'garbage': ('raw', 'not a date'), 'month13': ('raw', '2020/13/01'), 'feb30': ('raw', '2020/02/30'),
-           'three_parts': ('raw', '2020/01/01 - 2020/01/05 - 2020/01/09'), 'empty': ('raw', ''),
-           'day0': ('raw', '2020/01/00'), 'noleap': ('raw', '2019/02/29 - 2019/03/02'),
+    # third component: the pieces of the text between '-' signs as pd.Timestamp reads them (a day / None = rejected);
+    # 'nat' = a piece is empty text (pd.Timestamp gives NaT; rejected only by date_range; outside the translation)
+    bad = {'garbage': ('raw', 'not a date', [None]), 'month13': ('raw', '2020/13/01', [None]), 'feb30': ('raw', '2020/02/30', [None]),
+           'three_parts': ('raw', '2020/01/01 - 2020/01/05 - 2020/01/09', [(2020, 1, 1), (2020, 1, 5), (2020, 1, 9)]),
+           'empty': ('raw', '', 'nat'),
+           'day0': ('raw', '2020/01/00', [None]), 'noleap': ('raw', '2019/02/29 - 2019/03/02', [None, (2019, 3, 2)]),
            'reversed': None}[kind]
     if bad is None:
       # a reversed range: by one day (also across a month, leap-day or year boundary), a few days, or more
@@ -121,7 +124,23 @@ def encode(ents, res):
     r = 'None'
   else:
     r = 'Some %s' % coq_list(['(%d, %d, %d)' % d for d in res[0]])
-  return '(%s, %s)' % (coq_list(t), r)
+  return '(%s, %s, %s)' % (coq_list(t), pieces(ents), r)
+
+
+def pieces(ents):
+  """What the harness knows about the text it wrote: per entry, the pieces between '-' signs."""
+  out = []
+  for e in ents:
+    if e[0] == 'single':
+      ps = [e[1]]
+    elif e[0] == 'range':
+      ps = [e[1], e[2]]
+    elif len(e) > 2 and e[2] != 'nat':
+      ps = e[2]
+    else:
+      return 'None'
+    out.append(coq_list(['None' if q is None else 'Some (%d, %d, %d)' % tuple(q) for q in ps]))
+  return '(Some %s)' % coq_list(out)
 
 
 PRELUDE = ('From Coq Require Import List ZArith Bool.\nFrom MM Require Import model.Dates harness.RunCommon harness.RunC20.\n'
